@@ -53,10 +53,11 @@ class C01Faults(BridgeBase):
     def expand_histories(self, hs, tier):
         import copy
         ev = self.drive(hs)
-        calls = {}
+        calls, lookups = {}, {}
         for e in ev:
             if e["i"] > 0:
                 calls[(e["h"], e["i"])] = e.get("calls", 0)
+                lookups[(e["h"], e["i"])] = e.get("lookups") or []
         out = []
         self.fault_points = 0
         for h, steps in enumerate(hs):
@@ -69,11 +70,17 @@ class C01Faults(BridgeBase):
                     v[i]["args"]["k"] = k
                     out.append(v)
                     self.fault_points += 1
+                    if k in lookups.get((h, i + 1), []):     # a lookup: also the "not found" answer
+                        v2 = copy.deepcopy(v)
+                        v2[i]["args"]["fm"] = 1
+                        out.append(v2)
+                        self.fault_points += 1
+                        self.miss_points = getattr(self, "miss_points", 0) + 1
         return out
 
     def extra_coverage(self, tier):
-        return {"single_fault_histories": getattr(self, "fault_points", 0),
-                "fault_enumeration": "every collaborator call (bank / evm proxies) of every Send, Cancel and EndBlock step of the fault-free base histories, one fault per history"}
+        return {"single_fault_histories": getattr(self, "fault_points", 0), "lookup_not_found_histories": getattr(self, "miss_points", 0),
+                "fault_enumeration": "every collaborator call (bank / evm proxies) of every Send, Cancel and EndBlock step of the fault-free base histories, one fault per history; a fault is an error return and, for lookups with a found flag (relayer address), additionally the answer 'not found'"}
 
     def nontrivial(self, evs):
         return any(e.get("fired") for e in evs)
